@@ -363,6 +363,7 @@ type world struct {
 	hasSeries    map[int64]bool // refs with a series record in the WAL (as last observed)
 	interleaved  bool
 	openRefs     map[int64]map[int64]bool // open appender -> refs of its accepted appends
+	openApps     map[int64]bool           // appenders that are open right now
 	gcPending    map[int64]bool           // refs garbage collected while an open appender held data for them
 	// statistics
 	accepted, ooo, boundary, checkpoints, restarts, gcd, dupRefs, rollbacks, exAccepted, exRejected, zeroSamples, orphansAtCommit int
@@ -557,6 +558,7 @@ type appender struct {
 
 func (w *world) newAppender(id int64, ver int64) *appender {
 	a := &appender{id: id, ver: ver}
+	w.openApps[id] = true
 	if ver == 1 {
 		a.v1 = w.db.Appender(context.Background())
 	} else {
@@ -690,6 +692,7 @@ func (w *world) finish(a *appender, commit bool) {
 	}
 	must(err)
 	delete(w.openRefs, a.id)
+	delete(w.openApps, a.id)
 	term, rolls, recs := w.newRecords()
 	name := "ec"
 	if !commit {
@@ -707,7 +710,8 @@ func (w *world) finish(a *appender, commit bool) {
 			for _, t := range r.Triples {
 				if !w.hasSeries[t[0]] {
 					w.orphansAtCommit++
-					if w.shape == "" && w.interleaved {
+					// strict: only when another appender is still open (it holds the pending series record)
+					if w.shape == "" && len(w.openApps) > 0 {
 						w.shape = "agent-interleaved-appenders-sample-before-series"
 						w.desc = append(w.desc, fmt.Sprintf("FINDING: appender %d committed a sample/exemplar of ref %d whose series record is still pending in another appender", a.id, t[0]))
 					}
@@ -927,7 +931,7 @@ func (g *genState) interleavedSessions() {
 func newWorld(outDir string, meta *gallina.Meta, oow int64, stz bool) *world {
 	root, err := os.MkdirTemp(outDir, "c48_")
 	must(err)
-	w := &world{root: root, walDir: filepath.Join(root, "wal"), in: newInterner(), cache: segCache{}, seen: map[int]int{}, meta: meta, hasSeries: map[int64]bool{}, openRefs: map[int64]map[int64]bool{}, gcPending: map[int64]bool{}}
+	w := &world{root: root, walDir: filepath.Join(root, "wal"), in: newInterner(), cache: segCache{}, seen: map[int]int{}, meta: meta, hasSeries: map[int64]bool{}, openRefs: map[int64]map[int64]bool{}, gcPending: map[int64]bool{}, openApps: map[int64]bool{}}
 	w.opts = agent.DefaultOptions()
 	w.opts.WALSegmentSize = 32 * 1024
 	w.opts.NoLockfile = true
